@@ -498,6 +498,13 @@ Section Machine.
     exact (P_cache _ P).
   Qed.
 
+  Lemma WP_wait_reset s : WP s -> WP (wait_reset sc c ids s).
+  Proof.
+    intros P. apply (WP_plain s (wait_reset sc c ids s) []);
+      [apply wait_reset_tbl|apply wait_reset_tr|constructor| |exact P].
+    rewrite wait_reset_cache. exact (P_cache _ P).
+  Qed.
+
   (* ---- the wait task ---------------------------------------------------------------------------------- *)
   Hypothesis Hdel : forall k d, In d (w_deliv (nth k (e_waits (sc_env sc)) (mkW [] WTimeout))) -> calm d.
 
@@ -509,15 +516,15 @@ Section Machine.
     intros G R C N. unfold wait_task. cbv zeta.
     pose proof (wi_wait_start (WI_init G R C N)) as S1.
     destruct (wait_start c g ids s0) as [s1 w1]. cbn [fst snd] in S1.
-    destruct (w_pending w1); [exact (WI_WP _ _ _ S1)|].
+    destruct (w_pending w1); [apply WP_wait_reset; exact (WI_WP _ _ _ S1)|].
     destruct (match e_watch_err_at (sc_env sc) with Some n => Nat.eqb n (snd g) | None => false end);
       [apply WP_set_abort; exact (WI_WP _ _ _ S1)|].
     pose proof (wi_deliver (w_deliv (nth (snd g) (e_waits (sc_env sc)) (mkW [] WTimeout))) (Hdel (snd g)) s1 w1 S1) as S2.
     destruct (deliver sc c g ids _ s1 w1) as [s2 w2]. cbn [fst snd] in S2.
-    destruct (w_pending w2) eqn:EP; [exact (WI_WP _ _ _ S2)|]. clear EP.
+    destruct (w_pending w2) eqn:EP; [apply WP_wait_reset; exact (WI_WP _ _ _ S2)|]. clear EP.
     destruct (w_end _).
     - destruct (match c with AllCurrent => _ | AllNotFound => _ end);
-        [apply wp_timeout; exact S2|apply WP_set_abort; exact (WI_WP _ _ _ S2)].
+        [apply WP_wait_reset; apply wp_timeout; exact S2|apply WP_set_abort; exact (WI_WP _ _ _ S2)].
     - apply WP_set_abort. exact (WI_WP _ _ _ S2).
   Qed.
 End Machine.
